@@ -146,15 +146,21 @@ HistExprs == << <<"*", " ", "*", " ", "*", " ", "*", " ", "*">>,
                 <<"*", "/", "7", " ", "*", "/", "5", " ", "*", "/", "2", " ", "*", "/", "5", " ", "*">>,
                 <<"0", " ", "0", " ", "3", "0", " ", "*", " ", "0", ",", "6">>,
                 <<"3", "0", " ", "2", " ", "*", " ", "f", "e", "b", " ", "1">>,
-                <<"0", " ", "0", " ", "1", " ", "1", " ", "*">> >>
+                <<"0", " ", "0", " ", "1", " ", "1", " ", "*">>,
+                <<"3", "0", " ", "1", "2", " ", "*", " ", "*", " ", "m", "o", "n">>,
+                <<"0", " ", "1", "8", " ", "*", " ", "*", " ", "3">> >>
 HistStarts == << <<Ymd2Dn(2022, 1, 1), 0>>, <<Ymd2Dn(2023, 12, 31), 86399>>, <<Ymd2Dn(2024, 2, 28), 86340>>,
                  <<Ymd2Dn(2024, 2, 29), 43259>>, <<Ymd2Dn(2021, 3, 31), 61201>>, <<Ymd2Dn(1970, 1, 1), 1>>,
                  <<Ymd2Dn(2100, 2, 28), 86399>>, <<Ymd2Dn(2022, 5, 13), 14700>>, <<Ymd2Dn(2022, 10, 30), 3599>>,
-                 <<Ymd2Dn(2399, 12, 31), 86340>>, <<Ymd2Dn(2022, 4, 30), 86399>>, <<Ymd2Dn(2025, 6, 15), 43200>> >>
+                 <<Ymd2Dn(2399, 12, 31), 86340>>, <<Ymd2Dn(2022, 4, 30), 86399>>, <<Ymd2Dn(2025, 6, 15), 43200>>,
+                 \* around the leap day that has no successor four years later (2100 is a common year)
+                 <<Ymd2Dn(2096, 2, 29), 60>>, <<Ymd2Dn(2097, 6, 1), 0>>, <<Ymd2Dn(2099, 12, 31), 86399>>,
+                 \* a Monday and a Wednesday: one and two years later the same month and day fall on other weekdays
+                 <<Ymd2Dn(2024, 1, 15), 28800>>, <<Ymd2Dn(2023, 3, 1), 0>> >>
 AdvSeqs == IF Thorough
            THEN {<<a, b, c, d>> : a \in {0, 59, 3600}, b \in {0, 1, 60, 86400}, c \in {0, 30, 3599, 2678400}, d \in {0, 61, 31536000}}
            ELSE {<<0, 0, 0>>, <<0, 1, 60>>, <<59, 0, 3599>>, <<30, 86400, 0>>, <<3600, 60, 2678400>>, <<0, 31536000, 1>>,
-                 <<61, 61, 61>>, <<86399, 1, 0>>}
+                 <<61, 61, 61>>, <<86399, 1, 0>>, <<0, 31622400, 0>>, <<0, 31536000, 31536000>>}
 
 HistCase(e, st, advs) ==
   LET s == Recognize(e).sets
